@@ -270,6 +270,8 @@ impl World {
                     // picks one at random: not modelled when the new state is Bootstrapped, nor
                     // when handler steps surround the worker's
                     if before.iter().any(|p| p.text == "B state Bootstrapped" || p.text.starts_with("H timer")) { ambiguous = true }
+                    // the worker's step was cut in two by tokio's cooperative budget and the handler ran in between
+                    if self.last[i + 1..].iter().any(|p| p.t == e.t && p.node == e.node && p.text.starts_with("B ")) { ambiguous = true }
                 }
             }
         }
@@ -330,6 +332,7 @@ impl World {
     pub async fn exec(&mut self, req: &str, st: &mut Stats) -> String {
         let w: Vec<&str> = req.split_whitespace().collect();
         let mut raw = vec![];
+        if w.first() == Some(&"note") { self.last.clear(); return "-".into() }
         let Some(t) = w.last().and_then(|x| parse_at(x)) else { return "bad-op".into() };
         if t < self.now() { return "bad-op".into() }
         // an op that cannot be carried out has no effect at all (as in the model): check first
